@@ -117,17 +117,18 @@ partial def parseEntries (s : List Char) : List Entry × List Char :=
 
 /-- a call as written in the build script, with what the harness saw at the path the call looks at
 (`!` = nothing there / not listable) -/
-def parseSOp (t : String) : Option (SOp × Option (Bytes × Option Node)) :=
+def parseSOp (base : Bytes) (t : String) : Option (SOp × Option (Bytes × Option Node)) :=
   let dirNode (rest : List String) : Option Node :=
     let r := ":".intercalate rest
     if r == "!" then none else some (.dir (parseEntries r.toList).1)
+  -- the paths are the strings handed to the API; static calls resolve them through `path_for`
   match t.splitOn ":" with
   | "T" :: indir :: rest => some (.compileTemplates (unhex indir), some (unhex indir, dirNode rest))
   | ["F", path, content] =>
-    some (.addFile (unhex path), some (unhex path, if content == "!" then none else some (.file (unhex content))))
-  | "D" :: indir :: rest => some (.addFiles (unhex indir), some (unhex indir, dirNode rest))
+    some (.addFile (unhex path), some (pathFor base (unhex path), if content == "!" then none else some (.file (unhex content))))
+  | "D" :: indir :: rest => some (.addFiles (unhex indir), some (pathFor base (unhex indir), dirNode rest))
   | ["A", path, url] => some (.addFileAs (unhex path) (unhex url), none)
-  | "S" :: indir :: to :: rest => some (.addFilesAs (unhex indir) (unhex to), some (unhex indir, dirNode rest))
+  | "S" :: indir :: to :: rest => some (.addFilesAs (unhex indir) (unhex to), some (pathFor base (unhex indir), dirNode rest))
   | ["B", path, data] => some (.addFileData (unhex path) (unhex data), none)
   | _ => none
 
@@ -142,7 +143,7 @@ def dedup : List Bytes → List Bytes
 
 def nl : Bytes := [10]
 
-def runScript (utils : Bytes) (featS outH escS alnS fsS opsS : String) : String :=
+def runScript (utils : Bytes) (featS outH escS alnS fsS opsS baseH : String) : String :=
   let feat := if featS == "mime03" then MimeFeature.mime03 else if featS == "http-types" then .httpTypes else .off
   let outdir := unhex outH
   let escs := parseEsc escS
@@ -151,15 +152,16 @@ def runScript (utils : Bytes) (featS outH escS alnS fsS opsS : String) : String 
     match t.splitOn ":" with
     | [p, c] => some (unhex p, unhex c)
     | _ => none
-  let calls := if opsS == "-" then [] else (opsS.splitOn ";").filterMap parseSOp
+  let base := unhex baseH
+  let calls := if opsS == "-" then [] else (opsS.splitOn ";").filterMap (parseSOp base)
   let script := calls.map (·.1)
   -- the input tree as the operating system showed it: one node per path looked at
   let seen : List (Bytes × Option Node) := calls.filterMap (·.2)
   let tree : InFS := fun p => (seen.find? (fun x => x.1 == p)).bind (·.2)
-  let ops := script.map (SOp.resolve tree)
+  let ops := script.map (SOp.resolve base tree)
   let ue := fun c => escs.contains c
   let ua := fun c => alns.contains c
-  let o := Ructe.runScript ue ua feat fs outdir utils tree script
+  let o := Ructe.runScript ue ua feat fs outdir utils base tree script
   let names := namesAfter ue ua feat outdir utils ops
   "stdout=" ++ hex (nl.intercalate o.stdout) ++
   "|files=" ++ ",".intercalate ((sortPairs o.fs).map fun (p, c) => hex p ++ ":" ++ hex c) ++
@@ -238,7 +240,8 @@ def renderReq (progS entryH envS : String) : String :=
 
 def handle (utils : Bytes) (line : String) : String :=
   match line.trimAscii.toString.splitOn " " with
-  | ["script", featS, outH, escS, alnS, fsS, opsS] => runScript utils featS outH escS alnS fsS opsS
+  | ["script", featS, outH, escS, alnS, fsS, opsS] => runScript utils featS outH escS alnS fsS opsS "-"
+  | ["script", featS, outH, escS, alnS, fsS, opsS, baseH] => runScript utils featS outH escS alnS fsS opsS baseH
   | ["render", progS, entryH, envS] => renderReq progS entryH envS
   | ["slug", dataH] => hex (checksumSlug (unhex dataH))
   | ["nameext", fH] => (match nameAndExt (unhex fH) with | some (a, b) => "some " ++ hex a ++ " " ++ hex b | none => "none")
